@@ -178,7 +178,7 @@ func (w *wbuild) auditCacheWith(m *Machine, when string, alsoHave func(digest st
 }
 
 // damageCache removes or truncates a drawn cache entry between two invocations.
-func (w *wbuild) damageCache(m *Machine) string {
+func (w *wbuild) damageCache(m *Machine, wipeAll bool) string {
 	c := w.c
 	var files []string
 	for _, cd := range cacheDirs(m) {
@@ -197,7 +197,7 @@ func (w *wbuild) damageCache(m *Machine) string {
 	w.fs.damaged = true
 	k := 1 + c.Choose(3, "damage-count")
 	rel := ""
-	if c.Choose(3, "damage-wipe-cas") == 2 {
+	if c.Choose(3, "damage-wipe-cas") == 2 || wipeAll {
 		// the blob store is lost while the target results remain (e.g. a cache GC)
 		var keep []string
 		for _, f := range files {
@@ -219,7 +219,7 @@ func (w *wbuild) damageCache(m *Machine) string {
 		r, _ := filepath.Rel(m.Root, f)
 		rel += r + " "
 	}
-	if c.Choose(2, "damage-fresh-checkout") == 1 {
+	if c.Choose(2, "damage-fresh-checkout") == 1 || wipeAll {
 		// fresh checkout over a partially collected cache: every output has to be restored
 		for _, l := range w.U.Labels() {
 			removeOutputs(m.WS, w.U.Specs[l])
